@@ -18,6 +18,7 @@ import (
 	"time"
 
 	"cosmossdk.io/log"
+	"cosmossdk.io/math"
 	abci "github.com/cometbft/cometbft/abci/types"
 	dbm "github.com/cosmos/cosmos-db"
 	"github.com/cosmos/cosmos-sdk/client/flags"
@@ -26,6 +27,7 @@ import (
 	sdk "github.com/cosmos/cosmos-sdk/types"
 	banktypes "github.com/cosmos/cosmos-sdk/x/bank/types"
 	simapp "github.com/elys-network/elys/app"
+	ammtypes "github.com/elys-network/elys/x/amm/types"
 	burnertypes "github.com/elys-network/elys/x/burner/types"
 	epochstypes "github.com/elys-network/elys/x/epochs/types"
 )
@@ -145,6 +147,31 @@ func runC19(t *testing.T, seed int64, n int, out *Out) {
 				zero := burnertypes.GetZeroAddress()
 				txs = append(txs, &histTx{kind: "bank.toZeroAddress", f: J{}, req: TxReq{Signer: u, Msgs: []sdk.Msg{banktypes.NewMsgSend(u.Addr, zero,
 					sdk.NewCoins(sdk.NewCoin("uusdc", I(100+int64(b))), sdk.NewCoin("uatom", I(50+int64(b))), sdk.NewCoin("uelys", I(7))))}}})
+			}
+			if b%9 == 5 || b%9 == 7 {
+				// reserve ratios of exactly 2 and beyond on the unequal-weight pool (exponent 1/4): the power routine's range reduction
+				// and its cached constants; the first one is refused by its own limit half of the time (a refused tx must leave no trace)
+				p := stds[0].Pools[1]
+				if pool, ok := worlds[0].App.AmmKeeper.GetPool(worlds[0].Ctx(), p.Id); ok {
+					u := h.user()
+					res := map[string]math.Int{}
+					for _, pa := range pool.PoolAssets {
+						res[pa.Token.Denom] = pa.Token.Amount
+					}
+					if b%9 == 5 {
+						maxIn := I(1)
+						if h.r.Intn(2) == 0 {
+							maxIn = I(1_000_000_000_000_000)
+						}
+						txs = append(txs, &histTx{kind: "amm.swapOut.exactHalf", f: J{}, req: TxReq{Signer: u, Msgs: []sdk.Msg{&ammtypes.MsgSwapExactAmountOut{Sender: u.Addr.String(),
+							Routes: []ammtypes.SwapAmountOutRoute{{PoolId: p.Id, TokenInDenom: "uelys"}}, TokenOut: sdk.NewCoin("uusdc", res["uusdc"].QuoRaw(2)), TokenInMaxAmount: maxIn, Recipient: u.Addr.String()}}}})
+					} else {
+						d := []string{"uelys", "uusdc"}[h.r.Intn(2)]
+						o := map[string]string{"uelys": "uusdc", "uusdc": "uelys"}[d]
+						txs = append(txs, &histTx{kind: "amm.swapIn.whale", f: J{}, req: TxReq{Signer: u, Msgs: []sdk.Msg{&ammtypes.MsgSwapExactAmountIn{Sender: u.Addr.String(),
+							Routes: []ammtypes.SwapAmountInRoute{{PoolId: p.Id, TokenOutDenom: o}}, TokenIn: sdk.NewCoin(d, res[d].MulRaw(3).QuoRaw(2)), TokenOutMinAmount: I(1), Recipient: u.Addr.String()}}}})
+					}
+				}
 			}
 			k := 1 + h.r.Intn(3)
 			for i := 0; i < k; i++ {
